@@ -407,11 +407,16 @@ class TagList(object):
                 rslt = []
                 i += 1
                 lvl = 0
+                opened = [tag.tagNumber]
                 while i < len(self.tagList):
                     tag = self.tagList[i]
                     if tag.tagClass == Tag.openingTagClass:
                         lvl += 1
+                        opened.append(tag.tagNumber)
                     elif tag.tagClass == Tag.closingTagClass:
+                        # a closing tag carries the number of its opening tag
+                        if opened.pop() != tag.tagNumber:
+                            raise InvalidTag("mismatched open/close tags")
                         lvl -= 1
                         if lvl < 0: break
 
